@@ -199,31 +199,98 @@ class Cases:
         """f: Func under test; clause: short name of the specification clause; case: abstract input (dict);
         got: Outcome; ok: bool; want: text of the specified outcome."""
         key = (f.pkey, f.pqn, clause)
-        st = self.stats.setdefault(key, dict(n=0, bad=0, first=None, f=f))
+        st = self.stats.get(key)
+        if st is None:
+            st = self.stats[key] = dict(n=0, bad=0, first=None, qn=f.qn)
         st["n"] += 1
         if not ok:
             st["bad"] += 1
             if st["first"] is None:
-                st["first"] = dict(case=case, got=repr(got), want=want)
+                st["first"] = dict(case=_plain(case), got=repr(got), want=want)
 
     def flush(self):
-        total = 0
-        for (pkey, pqn, clause), st in sorted(self.stats.items(), key=lambda kv: (kv[0][0], kv[0][2])):
-            f = st["f"]
-            where = "%s:%d" % (C.rel(pkey[0]), pkey[1])
-            total += st["n"]
-            if st["bad"]:
-                w = st["first"]
-                self.chk.bad(self.rule, where, pqn, clause,
-                             "%s: on region %s the code %s, specified: %s (%d of %d regions disagree)" % (
-                                 clause, _case_txt(w["case"]), w["got"], w["want"], st["bad"], st["n"]),
-                             witness=dict(abstract_case=w["case"], got=w["got"], want=w["want"],
-                                          regions=st["n"], disagree=st["bad"], instantiation=f.qn))
-            else:
-                self.chk.ok(self.rule, where, "%s / %s: %d regions agree with the specification" % (
-                    pqn.split("::")[-1], clause, st["n"]), key=(pkey, clause),
-                            sample=dict(at=where, function=pqn, clause=clause, regions=st["n"], verdict="holds"))
-        return total
+        if self.chk is None:
+            return self.stats  # worker process: hand the statistics back to the parent
+        return flush_stats(self.chk, self.rule, self.stats)
+
+
+def _plain(case):
+    return {k: (v if isinstance(v, (int, str, tuple, list, bool)) or v is None else fmt(v)) for k, v in case.items()}
+
+
+def merge_stats(into, stats):
+    for key, st in stats.items():
+        t = into.get(key)
+        if t is None:
+            into[key] = dict(st)
+            continue
+        t["n"] += st["n"]
+        t["bad"] += st["bad"]
+        if t["first"] is None:
+            t["first"] = st["first"]
+    return into
+
+
+def flush_stats(chk, rule, stats):
+    total = 0
+    for (pkey, pqn, clause), st in sorted(stats.items(), key=lambda kv: (kv[0][0], kv[0][2])):
+        where = "%s:%d" % (C.rel(pkey[0]), pkey[1])
+        total += st["n"]
+        if st["bad"]:
+            w = st["first"]
+            chk.bad(rule, where, pqn, clause,
+                    "%s: on region %s the code %s, specified: %s (%d of %d regions disagree)" % (
+                        clause, _case_txt(w["case"]), w["got"], w["want"], st["bad"], st["n"]),
+                    witness=dict(abstract_case=w["case"], got=w["got"], want=w["want"],
+                                 regions=st["n"], disagree=st["bad"], instantiation=st["qn"]))
+        else:
+            chk.ok(rule, where, "%s / %s: %d regions agree with the specification" % (
+                pqn.split("::")[-1], clause, st["n"]), key=(pkey, clause),
+                   sample=dict(at=where, function=pqn, clause=clause, regions=st["n"], verdict="holds"))
+    return total
+
+
+# ------------------------------------------------------------------------------------------------
+# parallel driver: suites are split into jobs evaluated in forked workers (the loaded unit is shared
+# copy-on-write); workers return per-(function, clause) statistics which the parent merges.
+# ------------------------------------------------------------------------------------------------
+_JOB_UNIT = None
+
+
+def _job(args):
+    modname, fname, kwargs = args
+    import importlib
+    mod = importlib.import_module(modname)
+    w = World(_JOB_UNIT)
+    try:
+        stats = getattr(mod, fname)(None, w, None, **kwargs)
+        return ("ok", stats, w.evals)
+    except AnalysisBroken as e:
+        return ("broken", str(e), 0)
+
+
+def run_jobs(chk, unit, rule, jobs, procs=None):
+    """jobs: list of (module name, suite function name, kwargs).  Returns number of regions evaluated."""
+    import multiprocessing as mp
+    import os
+    global _JOB_UNIT
+    _JOB_UNIT = unit
+    procs = procs or min(len(jobs), int(os.environ.get("BSV_PROCS", "14")))
+    stats = {}
+    if procs <= 1 or len(jobs) <= 1:
+        res = [_job(j) for j in jobs]
+    else:
+        ctx = mp.get_context("fork")
+        with ctx.Pool(procs) as pool:
+            res = pool.map(_job, jobs, chunksize=1)
+    evals = 0
+    for r in res:
+        if r[0] == "broken":
+            raise AnalysisBroken(r[1])
+        merge_stats(stats, r[1])
+        evals += r[2]
+    chk.notes["abstract_calls"] = chk.notes.get("abstract_calls", 0) + evals
+    return flush_stats(chk, rule, stats)
 
 
 def _case_txt(c):
